@@ -211,6 +211,22 @@ def size_of(t):
     if t.kind == "tuple": return max(1, sum(size_of(x) for x in t.args)) if t.args else 0
     if t.kind == "adt" and t.last() in ("Vec", "String"): return 24
     if t.kind == "ref": return 16 if t.args[0].kind in ("slice", "str") else 8
+    if t.kind == "adt":
+        import defs
+        cands = [v for (c, n), v in defs.STRUCTS.items() if n == t.last()]
+        if len(cands) >= 1:
+            from mir import parse_ty as _p
+            tot, al = 0, 1
+            for f in cands[0]:
+                try:
+                    ft = _p(f.replace(" ", "") if "<" not in f else f)
+                except Exception:
+                    return 24
+                s = size_of(ft)
+                a = 8 if s >= 8 else max(1, s if s in (1, 2, 4) else 1)
+                al = max(al, a)
+                tot += s
+            return ((tot + al - 1) // al) * al
     return 24
 
 
@@ -227,6 +243,11 @@ def vec_method(name, c):
                 fits = int_binop("Le", n, usize(lim))
                 if not I.E.branch(fits, "cap"):
                     raise Panic(f"capacity overflow in Vec::with_capacity ({fr.fn.crate}::{fr.fn.name})")
+                # more bytes than the whole 47-bit user address space: the allocation fails and
+                # handle_alloc_error aborts the process
+                huge = int_binop("Gt", n, usize((1 << 47) // es))
+                if I.E.branch(huge, "alloc"):
+                    raise Panic(f"allocation of more than 2^47 bytes aborts in Vec::with_capacity ({fr.fn.crate}::{fr.fn.name})")
             return Seq([], "vec")
         v = deref(a[0])
         if isinstance(v, Agg) and len(v.cells) == 1: v = v.cells[0].v
